@@ -66,6 +66,24 @@ var properties = map[string]*Property{
 			"that every function-creating closure marks its frame / frees it exactly once (typestate over func0ret0..func2ret0)",
 		},
 	},
+	"C12": {
+		ID:    "C12",
+		Title: "A panic escaping an evaluation at any point leaves later evaluations unaffected",
+		Units: []Unit{
+			{Kind: "funcs", Pkg: "fast", Funcs: []string{
+				"restore", "pushDefer", "popDefer", "(*Run).applyDebugOp", "(*Run).applyAsyncSignal",
+				"reExecWithFlags$1", "reExecWithFlags", "exec$1", "execWithFlags$1",
+				"(*Interp).prepareEnv", "(*Interp).RunExpr", "(*Interp).DebugExpr",
+				"writers:Run.ExecFlags", "writers:Run.DeferOfFun", "writers:Run.Interrupt", "writers:Run.CurrEnv",
+			}},
+		},
+		NotCovered: []string{
+			"the induction over the nesting of executors that turns the per-function every-exit contracts plus the writers scans into 'the Run after an aborted evaluation equals the Run before it' (paper step, DESIGN.md)",
+			"Run.PanicFun / Run.Panic left set by an escaping panic (harmless only through callRecover, not under contract); Run.InstallDefer",
+			"writers of Run fields in other packages (the scan covers package fast); side effects already performed are excluded by the statement",
+			"'produces exactly the results it would have produced': equality of later results is reduced to equality of the Run bookkeeping and the unchanged definitions (C15), not proved end to end",
+		},
+	},
 	"C14": {
 		ID:    "C14",
 		Title: "REPL-style evaluation, one top-level statement at a time, matches in-order Go",
